@@ -50,7 +50,16 @@ func ParseBytes(path string, b []byte) (*ir.Module, error) {
 // ParseString parses the given LLVM IR assembly file into an LLVM IR module,
 // reading from content. An optional path to the source file may be specified
 // for error reporting.
-func ParseString(path, content string) (*ir.Module, error) {
+func ParseString(path, content string) (m *ir.Module, err error) {
+	// The translator panics on constructs which have no representation in the
+	// IR (e.g. keywords unknown to ir/enum, such as the bfloat type) and on
+	// malformed input not caught by an explicit check. Report those as errors to
+	// the caller instead of crashing it.
+	defer func() {
+		if e := recover(); e != nil {
+			m, err = nil, errors.Errorf("unable to translate %q into IR: %v", path, e)
+		}
+	}()
 	parseStart := time.Now()
 	tree, err := ast.Parse(path, content)
 	if err != nil {
